@@ -13,7 +13,7 @@ B == <<1, 98, 0>>        \* "b."
 X == <<1, 120, 0>>       \* "x."
 Rec(form, httl, hclass) ==
   [k |-> "rec", owner |-> [form |-> form, labels |-> <<<<114>>>>, name |-> X], httl |-> httl, ttl |-> 5,
-   hclass |-> hclass, class |-> 1, type |-> 1, rdata |-> <<1>>, nl |-> 1]
+   hclass |-> hclass, class |-> 1, type |-> 1, rdata |-> <<0, 0, 0, 1>>, nl |-> 1]
 Base == {[k |-> "origin", name |-> A, nl |-> 1], [k |-> "origin", name |-> B, nl |-> 1], [k |-> "ttl", v |-> 9, nl |-> 2],
          Rec("abs", TRUE, TRUE), Rec("rel", FALSE, FALSE), Rec("at", TRUE, FALSE), Rec("blank", FALSE, TRUE)}
 Inc(j) == {[k |-> "include", file |-> j, horigin |-> h, origin |-> B, nl |-> 1] : h \in BOOLEAN}
